@@ -105,10 +105,10 @@ Example C01_join_tree_example :
   let gt (x y : Z) := (x, (x >? y)%Z) in
   let b2z (b : bool) := if b then 1 else 0 in
   let foo := Trees.JLeaf [[(0, 10); (1, 20); (2, 31)]; [(0, 10); (1, 20); (2, 32)]]%N
-                            [[mkS 950 (Some 2); mkS 1040 (Some 3)]; [mkS 990 (Some 5)]] 0 in
-  let bar := Trees.JLeaf [[(0, 11); (1, 20); (3, 40)]]%N [[mkS 980 (Some 10)]] 0 in
+                            [[mkS 950 (Some 2); mkS 1040 (Some 3)]; [mkS 990 (Some 5)]] 0 None in
+  let bar := Trees.JLeaf [[(0, 11); (1, 20); (3, 40)]]%N [[mkS 980 (Some 10)]] 0 None in
   let baz := Trees.JLeaf [[(0, 12); (1, 20); (2, 31)]; [(0, 12); (1, 20); (2, 32)]]%N
-                            [[mkS 1000 (Some 25)]; [mkS 1000 (Some 25)]] 0 in
+                            [[mkS 1000 (Some 25)]; [mkS 1000 (Some 25)]] 0 None in
   let inner := Trees.JJoin (Trees.mkJP mul b2z true [1%N] [3%N] Bin.ManyToOne false true) foo bar in
   let t := Trees.JJoin (Trees.mkJP gt b2z true [1%N; 2%N] [] Bin.OneToOne true false) inner baz in
   Trees.jok t /\
@@ -128,7 +128,7 @@ Example C01_range_agg_tree_example :
   let foo_l := [[(0, 10); (1, 20); (2, 31)]; [(0, 10); (1, 21); (2, 31)]; [(0, 10); (1, 22); (2, 32)]]%N in
   let foo_s := [[mkS 940 (Some 2); mkS 990 (Some 7); mkS 1040 (Some 3)]; [mkS 950 (Some 5)]; [mkS 1000 (Some 1)]] in
   let t := Trees.JAgg (TreeOps.zinit 0) (TreeOps.zadd 0) false [2%N]
-                      (Trees.JRange false (TreeOps.zrange 2) 60 foo_l foo_s 0) in
+                      (Trees.JRange false (TreeOps.zrange 2) 60 foo_l foo_s 0 None) in
   Trees.jok t /\
   Trees.jrun (mkCfg 2 10 300) (mkW 1000 1100 50) t =
     inl [(1000, [(0%nat, 12); (1%nat, 1)]); (1050, [(0%nat, 7); (1%nat, 1)]); (1100, [(0%nat, 3)])] /\
